@@ -169,7 +169,7 @@ for n, what in (("c10_stream_no_master", "no master open"), ("c10_stream_unknown
 
 # ---------------------------------------------------------------- public-API skeleton documents (Flat, <= 3 next() calls)
 DOC_A = ["structure (element types, payload lengths, cut, read partition, capacity) is concrete and enumerated; only payload bytes are symbolic", "spec Flat (all elements at root level), strict mode",
-         "utf8 payload bytes restricted to ASCII"]
+         "utf8 payloads are concrete ASCII text (all other payload bytes symbolic)"]
 DOCS = [("doc_u3_u1", "[U:3][U:1]"), ("doc_i2_i0", "[I:2][I:0]"), ("doc_f4_f8", "[F:4][F:8]"), ("doc_s2_b3", "[S:2][B:3]"), ("doc_b0_u8", "[B:0][U:8]"),
         ("doc_u0_i8", "[U:0][I:8]"), ("doc_i1_s0", "[I:1][S:0]"), ("doc_f3_u1", "[F:3 (invalid float length)][U:1]"), ("doc_i7_f0", "[I:7][F:0 (invalid float length)]"), ("doc_b8_b1", "[B:8][B:1]")]
 QUICK_DOCS = {"doc_u3_u1", "doc_i2_i0", "doc_f4_f8", "doc_s2_b3", "doc_b0_u8", "doc_f3_u1"}
@@ -197,7 +197,16 @@ for n, ch in (("hdr_tree_chain_empty", "no master open"), ("hdr_tree_chain_root"
         "peek_valid_tag_header with open masters %s: accepted iff (id in spec | tolerated) and declared path matches the chain left after closing unknown-size masters (| tolerated) and extent inside every known-size ancestor (| tolerated) and size <= limit; "
         "each rejection carries its own kind, the offending id and offset" % ch,
         "every 1-byte id x every 1-2 byte size field; each open master known/unknown-size with symbolic extents; all 8 tolerance masks; limit any Option<usize>; base offset < 2^40",
-        tier="quick" if n in ("hdr_tree_chain_root_a", "hdr_tree_chain_root_a_b", "hdr_tree_chain_empty") else "thorough",
-        timeout_s=2400, mem_gb=16, stubs=IO_HASH, big_stack=True, assumes=TREE_A)
-add("hdr_tree_first_element", ["C06", "C03"], "hdr_tree.rs", "U", "first element of a stream (position not yet fixed): a non-global element fixes it and its declared ancestors become open masters stored as End, offset 0, unknown size; a global does not",
-    "every 1-byte id x every 1-byte size field, strict mode", timeout_s=1800, mem_gb=12, stubs=IO_HASH, big_stack=True, assumes=["fresh iterator state, 20 bytes buffered"])
+        tier="quick" if n in ("hdr_tree_chain_empty",) else "thorough",
+        timeout_s=5400, mem_gb=16, stubs=IO_HASH, big_stack=True, assumes=TREE_A)
+for n, ch in (("hdr_tree_known_root", "[Root]"), ("hdr_tree_known_root_a", "[Root, A]"), ("hdr_tree_known_root_a_b", "[Root, A, B]"), ("hdr_tree_known_root_a2", "[Root, A2]")):
+    add(n, ["C11", "C06", "C13", "C17"], "hdr_tree.rs", "U",
+        "peek_valid_tag_header with KNOWN-size open masters %s: accepted iff (id in spec | tolerated) and declared path matches the chain (| tolerated) and extent inside every ancestor (| tolerated) and size <= limit; each rejection carries its own kind, id and offset" % ch,
+        "every 1-byte id x every 1-2 byte size field; symbolic extents of the known-size masters; all 8 tolerance masks; limit any Option<usize>; base offset < 2^40",
+        tier="quick" if n in ("hdr_tree_known_root_a", "hdr_tree_known_root_a_b") else "thorough",
+        timeout_s=2400, mem_gb=16, stubs=IO_HASH, big_stack=True, assumes=TREE_A + ["all open masters known-size (unknown-size closing: hdr_tree_chain_*, thorough)"])
+for n, e in (("hdr_tree_first_l3", "L3 (Root/A/B/L3)"), ("hdr_tree_first_l2", "L2 (Root/A/L2)"), ("hdr_tree_first_b", "master B (Root/A/B)"), ("hdr_tree_first_a2", "master A2 (Root/A2)"),
+             ("hdr_tree_first_root", "Root"), ("hdr_tree_first_void", "global Void")):
+    add(n, ["C06", "C03"], "hdr_tree.rs", "U", "first element of a stream is %s (position not yet fixed): a non-global element fixes it and its declared ancestors become open masters stored as End, offset 0, unknown size; a global does not" % e,
+        "every 1-byte size field, 20 symbolic bytes behind, strict mode", tier="quick" if n in ("hdr_tree_first_l3", "hdr_tree_first_b", "hdr_tree_first_void") else "thorough",
+        timeout_s=1200, mem_gb=10, stubs=IO_HASH, big_stack=True, assumes=["fresh iterator state, 20 bytes buffered"])
